@@ -11,6 +11,8 @@
 (*               "use.com,use2.com,192.168.1.1");  sup = [java |-> .., ts |-> ..]          *)
 (*               whether that implementation's own validation accepts the item as typed   *)
 (*   impl        the implementation that produced res                                     *)
+(*   envform     "normal" (a list variable is set iff its list is non-empty) |             *)
+(*               "allow-empty" (LUNAR_ALLOW_LIST is SET to the empty string; allow = <<>>) *)
 (*   stage       "" | "construct" | "decide": where an exception was raised               *)
 EXTENDS TrafficFilterP, InterceptorImpls
 
@@ -63,6 +65,7 @@ Outright(c, d) ==
     \/ /\ d = DevAllowItemRaises /\ c.res = "raise" /\ c.stage = "construct"
        /\ Len(c.allow) >= 2 /\ \E x \in SeqSet(c.allow) : ~x.sup[c.impl]
     \/ /\ d = DevV6CutAtColon /\ c.kind = "ip6" /\ c.res \in {"yes", "no"}
+    \/ /\ d = DevEmptyAllowValue /\ c.envform = "allow-empty" /\ c.res = "no"
 
 Accepts(c, d) == Outright(c, d) \/ (Widen(c, d) # c /\ PermittedStrict(Widen(c, d)))
 
